@@ -168,6 +168,9 @@ def _case(draw, stream):
             names = {"t": "cols", "v": v}
         else:
             d = {wid((i // C) % 26, i % C): "n%d" % (i % 3) for i in filled[:6] if i // C < 26}
+            for i in filled[6:8]:
+                if i // C < 26:
+                    d[wid(i // C, i % C)] = None  # explicitly unnamed (Mapping[str, Optional[str]])
             if stream == "mixed" and draw(st.integers(0, 3)) == 0:
                 if empty and empty[0] // C < 26 and draw(st.booleans()):
                     d[wid(empty[0] // C, empty[0] % C)] = "ghost"
